@@ -72,7 +72,7 @@ PROPS = {
         lean_core=["Props.GenTie.Params", "Props.C19"], lean_code=["Props.GenTie.Heights"], gen_funcs=["is_time_to_connect"], harness="c19",
         assumptions=["the platform selector limit (512 sockets) is not reached", "rename is atomic with respect to process crashes"]),
     "C08": dict(
-        lean_core=[], lean_code=[], gen_funcs=[], harness="c08",
+        lean_core=["Props.C08"], lean_code=[], gen_funcs=[], harness="c08",
         assumptions=["SQLite: insert-or-ignore, immediate foreign keys, explicit transactions; an unordered SELECT returns rows in insertion (rowid) order",
                      "partial: histories in which a transaction id occurs in two stored blocks are the known finding D2"]),
     "C10": dict(
